@@ -471,6 +471,12 @@ func (this *rolzCodec1) Forward(src, dst []byte) (uint, uint, error) {
 				litIdx += litLen
 			}
 
+			if tkIdx+1 >= len(tkBuf) || mIdx >= len(mIdxBuf) {
+				// Too many short matches for the token buffers (one more
+				// token follows the last match). The decoder uses the same sizes.
+				return uint(startChunk + srcIdx), uint(dstIdx), errors.New("ROLZ codec forward transform skip: too many matches")
+			}
+
 			tkBuf[tkIdx] = token
 			tkIdx++
 
